@@ -122,32 +122,46 @@ Proof. exact gstats_chunk_inv. Qed.
 Print Assumptions C06_stats_by_chunk_invariant.
 
 (* ---- streamstats ---- *)
-(* Full statement (FALSE for the code, see C06_streamstats_window_chunk_refuted):
-     forall o bs, run (streamstats_cmd true o) bs = run (streamstats_cmd true o) [concat bs]
-   ([streamstats_cmd true] = the code: currentIndex is set to 0 at the start of every batch).
-   Proved under the exact guard "no global window and no reset_on_change":
-   (window = 0 or global = false) and reset_on_change = false. *)
-Theorem C06_streamstats_chunk_invariant_guarded : forall o,
+(* [streamstats_cmd false] is the code: currentIndex / currentBucketKey run across the
+   Process() calls.  Every variant of the model (count/sum, current, by, window, global,
+   reset_on_change) is chunk invariant, unguarded. *)
+Theorem C06_streamstats_chunk_invariant : forall o bs,
+  run (streamstats_cmd false o) bs = run (streamstats_cmd false o) [concat bs].
+Proof. exact streamstats_fixed_chunk_inv. Qed.
+Print Assumptions C06_streamstats_chunk_invariant.
+
+(* the 12 rows of DESIGN §4.1 (v_i = 7i mod 5), window=3, cut 5+5+2: the sliding-window sum *)
+Theorem C06_streamstats_window12_cut_meets_spec :
+  run (streamstats_cmd false (ss_win 3)) [firstn 5 ss12; firstn 5 (skipn 5 ss12); skipn 10 ss12]
+  = window_sum_spec 3 fv fsv ss12.
+Proof. exact streamstats_window12_fixed. Qed.
+Print Assumptions C06_streamstats_window12_cut_meets_spec.
+
+(* ---- documentation: the code BEFORE the fix ([streamstats_cmd true]: currentIndex = 0 and
+   currentBucketKey = "" at the start of every Process() call).  These theorems say why the
+   fix was needed and what a regression looks like. ---- *)
+(* chunk invariant only without a global window and without reset_on_change *)
+Theorem C06_streamstats_prefix_chunk_invariant_guarded : forall o,
   ss_index_free o = true ->
   forall bs, run (streamstats_cmd true o) bs = run (streamstats_cmd true o) [concat bs].
 Proof. exact streamstats_nowindow_chunk_inv. Qed.
-Print Assumptions C06_streamstats_chunk_invariant_guarded.
+Print Assumptions C06_streamstats_prefix_chunk_invariant_guarded.
 
-Example C06_streamstats_guard_satisfiable :
+Example C06_streamstats_prefix_guard_satisfiable :
   ss_index_free {| ss_func := SSum; ss_field := fv; ss_out := fsv; ss_current := true;
                    ss_by := [fa]; ss_window := 0; ss_global := true; ss_reset_on_change := false |} = true.
 Proof. reflexivity. Qed.
 
-(* a global window depends on the batching: window=1 sum(v), rows v=1,v=1 cut between
-   them give 1,2; un-cut 1,1 *)
-Theorem C06_streamstats_window_chunk_refuted : exists o bs,
+(* a global window depended on the batching: window=1 sum(v), rows v=1,v=1 cut between
+   them gave 1,2; un-cut 1,1 *)
+Theorem C06_streamstats_prefix_window_chunk_refuted : exists o bs,
   ss_window o <> 0 /\ run (streamstats_cmd true o) bs <> run (streamstats_cmd true o) [concat bs].
 Proof. exact streamstats_window_refuted. Qed.
-Print Assumptions C06_streamstats_window_chunk_refuted.
+Print Assumptions C06_streamstats_prefix_window_chunk_refuted.
 
-(* the confirmed case of DESIGN §4.1: 12 rows v_i = 7i mod 5, window=3: un-cut = sliding sum;
-   cut 5+5+2 differs (sums 8,10,14,15,18,18,20 from row 5 on instead of 4,5,6,7,8,4,5) *)
-Theorem C06_streamstats_window12_witness :
+(* the confirmed case of DESIGN §4.1: un-cut = sliding sum; cut 5+5+2 differed
+   (sums 8,10,14,15,18,18,20 from row 5 on instead of 4,5,6,7,8,4,5) *)
+Theorem C06_streamstats_prefix_window12_witness :
   run (streamstats_cmd true (ss_win 3)) [ss12] = window_sum_spec 3 fv fsv ss12
   /\ run (streamstats_cmd true (ss_win 3)) [firstn 5 ss12; firstn 5 (skipn 5 ss12); skipn 10 ss12]
      <> window_sum_spec 3 fv fsv ss12
@@ -155,25 +169,17 @@ Theorem C06_streamstats_window12_witness :
        (run (streamstats_cmd true (ss_win 3)) [firstn 5 ss12; firstn 5 (skipn 5 ss12); skipn 10 ss12])
      = map VNum [0; 2; 6; 7; 8; 8; 10; 14; 15; 18; 18; 20]%Z.
 Proof. exact streamstats_window12. Qed.
-Print Assumptions C06_streamstats_window12_witness.
+Print Assumptions C06_streamstats_prefix_window12_witness.
 
-(* reset_on_change=true .. by g: Process() sets currentBucketKey = "" at the start of every
-   batch, so its first row always counts as a change of key: rows g=p,g=p cut between them
-   give count 1,1; un-cut 1,2 *)
-Theorem C06_streamstats_reset_on_change_chunk_refuted : exists o bs,
+(* reset_on_change=true .. by g: the first row of every batch counted as a change of key:
+   rows g=p,g=p cut between them gave count 1,1; un-cut 1,2 *)
+Theorem C06_streamstats_prefix_reset_on_change_chunk_refuted : exists o bs,
   ss_reset_on_change o = true
   /\ run (streamstats_cmd true o) bs <> run (streamstats_cmd true o) [concat bs]
   /\ map (fun r => get r fc) (run (streamstats_cmd true o) bs) = [VNum 1; VNum 1]
   /\ map (fun r => get r fc) (run (streamstats_cmd true o) [concat bs]) = [VNum 1; VNum 2].
 Proof. exact streamstats_reset_on_change_refuted_thm. Qed.
-Print Assumptions C06_streamstats_reset_on_change_chunk_refuted.
-
-(* the mechanism: with the row index and the previous key running over the whole stream instead
-   of being reset per Process() call, every streamstats variant of the model is chunk invariant *)
-Theorem C06_streamstats_index_not_reset_chunk_invariant : forall o bs,
-  run (streamstats_cmd false o) bs = run (streamstats_cmd false o) [concat bs].
-Proof. exact streamstats_fixed_chunk_inv. Qed.
-Print Assumptions C06_streamstats_index_not_reset_chunk_invariant.
+Print Assumptions C06_streamstats_prefix_reset_on_change_chunk_refuted.
 
 (* ---- chains: any commands that are chunk invariant, any re-cutting between the stages ---- *)
 Theorem C06_chain_chunk_invariant : forall cs cs', same_cmds cs cs' ->
